@@ -186,7 +186,9 @@ def finish(run, error=None):
     evdir = os.path.join(VERIF, "evidence")
     os.makedirs(evdir, exist_ok=True)
     # only the canonical /repo run rewrites the committed evidence; scratch-root runs (selftest) do not
-    if os.environ.get("VERIF_NO_EVIDENCE") != "1":
+    write_ev = os.environ.get("VERIF_NO_EVIDENCE") != "1" and (
+        os.path.realpath(run.root) == os.path.realpath(os.environ.get("VERIF_CANONICAL_ROOT", "/repo")))
+    if write_ev:
         with open(os.path.join(evdir, "%s.json" % run.pid), "w") as f:
             json.dump(ev, f, indent=1, sort_keys=True)
             f.write("\n")
@@ -205,7 +207,7 @@ def finish(run, error=None):
         os.makedirs(rdir, exist_ok=True)
         for i, f in enumerate(new):
             rp = os.path.join(rdir, "%s_%d.json" % (run.pid, i))
-            if os.environ.get("VERIF_NO_EVIDENCE") != "1":
+            if write_ev:
                 with open(rp, "w") as fh:
                     json.dump(f.asdict(), fh, indent=1)
             out.write("VIOLATION property=%s replay=%s\n" % (run.pid, rp))
